@@ -102,7 +102,10 @@ def build(features):
     if "dep_reason" in f:
         qfields.append(FieldDef("legacy", "String", dep=('use "a" \\ not é',)))
         qfields.append(FieldDef("legacy2", "Int", dep=(None,)))
-        sel += [Field("legacy"), Field("legacy2")]
+        # reasons whose whitespace matters (runs of blanks, line breaks, a tab, blanks at both ends) and an empty one
+        qfields.append(FieldDef("legacy3", "Int", dep=("  two  blanks\n\tnext line \r\n end ",)))
+        qfields.append(FieldDef("legacy4", "Int", dep=("",)))
+        sel += [Field("legacy"), Field("legacy2"), Field("legacy3"), Field("legacy4")]
     if "input" in f or "oneof" in f:
         types.append(gql.inp("Zin", [("flag", "Boolean")]))
         types.append(gql.inp("Filter", [("text", "String"), ("and", "Filter"), ("many", "[Filter!]"), ("z", "Zin!"),
